@@ -1458,12 +1458,24 @@ class IRGenerator:
                             *loc)
                     if isinstance(env[type_name], Environment):
                         # Handle reference to field in imported namespace.
-                        namespace_name, type_name, field_name = val.split('.', 2)
+                        parts = val.split('.', 2)
+                        if len(parts) != 3 or parts[1] not in env[type_name]:
+                            raise InvalidSpec(
+                                'Bad doc reference to field %s of '
+                                'unknown type.' % _quote_text(val),
+                                *loc)
+                        namespace_name, type_name, field_name = parts
                         data_type_to_check = env[namespace_name][type_name]
-                    elif isinstance(env[type_name], Alias):
-                        data_type_to_check = env[type_name].data_type
                     else:
                         data_type_to_check = env[type_name]
+                    while isinstance(data_type_to_check, Alias):
+                        data_type_to_check = data_type_to_check.data_type
+                    if not isinstance(data_type_to_check, (Struct, Union)):
+                        raise InvalidSpec(
+                            'Bad doc reference to field %s of %s, which is '
+                            'not a struct or union.' %
+                            (_quote_text(field_name), _quote_text(type_name)),
+                            *loc)
                     if not any(field.name == field_name
                                for field in data_type_to_check.all_fields):
                         raise InvalidSpec(
@@ -1471,7 +1483,12 @@ class IRGenerator:
                             *loc)
                 else:
                     # Referring to a field that's a member of this type
-                    assert type_context is not None
+                    if type_context is None:
+                        raise InvalidSpec(
+                            'Bad doc reference to field %s: no type is '
+                            'given and the doc does not belong to a struct '
+                            'or union.' % _quote_text(val),
+                            *loc)
                     if not any(field.name == val
                                for field in type_context.all_fields):
                         raise InvalidSpec(
@@ -1495,10 +1512,19 @@ class IRGenerator:
                             "Unknown doc reference to namespace '%s'." %
                             namespace_name, *loc)
                     env_to_check = env[namespace_name]
+                    if not isinstance(env_to_check, Environment):
+                        raise InvalidSpec(
+                            "Doc reference to route %s: '%s' is not a namespace." %
+                            (_quote_text(val), namespace_name), *loc)
                 else:
                     env_to_check = env
 
-                route_name, version = parse_route_name_and_version(val)
+                try:
+                    route_name, version = parse_route_name_and_version(val)
+                except ValueError:
+                    raise InvalidSpec(
+                        'Bad doc reference to route %s (the version must be '
+                        'an integer).' % _quote_text(val), *loc)
                 if route_name not in env_to_check:
                     raise InvalidSpec(
                         'Unknown doc reference to route {}.'.format(_quote_text(route_name)), *loc)
@@ -1519,6 +1545,10 @@ class IRGenerator:
                             "Unknown doc reference to namespace '%s'." %
                             namespace_name, *loc)
                     env_to_check = env[namespace_name]
+                    if not isinstance(env_to_check, Environment):
+                        raise InvalidSpec(
+                            "Doc reference to type %s: '%s' is not a namespace." %
+                            (_quote_text(val), namespace_name), *loc)
                 else:
                     env_to_check = env
                 if val not in env_to_check:
